@@ -29,7 +29,9 @@ CLAIMED["C06"] = dict(
     design_ref="4.6",
     technique="TLA+ model of the window rules at the real constants, TLC one-step (inductive) exploration from every "
               "state of the range; each exported transition executed on a real SrtlaConnection; recorded timed "
-              "histories validated by TLC",
+              "histories validated by TLC"
+              "; the UNMODIFIED event loop (run_sender_with_config on a paused clock, real sockets) recorded end to end and "
+              "validated by TLC against the observer Trace_Loop.tla (a classic window never grows without ACKs, incl. after run-time mode switches)",
     text="Every C06 clause is a single-step statement about the window, so TLC takes every action of Window.tla from "
          "every state of the real range (quick: boundary windows x all age boundaries; thorough: all 59001 windows x "
          "every age class, 5e8 transitions) and checks range, direction, reset value and the fast-recovery entry/exit "
@@ -134,7 +136,9 @@ CLAIMED["C07"] = dict(
     engine="tlc+registration", design_ref="4.7",
     technique="TLA+ model of the registration manager with relative countdown timers; TLC on the complete state graph "
               "(no depth bound); every transition out of every manager state executed on the real manager through "
-              "process_uplink_packet; recorded ms-resolution histories validated by TLC",
+              "process_uplink_packet; recorded ms-resolution histories validated by TLC"
+              "; the UNMODIFIED event loop (run_sender_with_config on a paused clock, real sockets) recorded end to end and "
+              "validated by TLC against the observer Trace_Loop.tla (REG1 only while no uplink is registered and never two outstanding, adopted id broadcast on every uplink by the next pass; receiver-restart schedules)",
     text="TLC explores the complete graph of the handshake (REG_NGP / REG2 full, short, wrong-link, any id token / "
          "REG3 / REG_ERR on any link, housekeeping passes, link drops, clock steps across the 1 s / 2 s / 4 s "
          "deadlines; 2 links, 3 with the thorough tier) and checks at-most-one outstanding REG1, driver REG1 only "
@@ -169,7 +173,9 @@ CLAIMED["C01"] = dict(
     engine="tlc+shellsim", design_ref="4.1",
     technique="TLA+ Forwarding.tla (per-link FIFOs, Route / FlushTick / LinkReset with the property as guards) "
               "model-checked with the code's flush policy over every interleaving; ShellSim runs of the real "
-              "shell validated line by line by TLC against Forwarding (wire output digest for digest, in order)",
+              "shell validated line by line by TLC against Forwarding (wire output digest for digest, in order)"
+              "; the UNMODIFIED event loop (run_sender_with_config on a paused clock, real sockets) recorded end to end and "
+              "validated by TLC against the observer Trace_Loop.tla (exactly once, intact, per-link order, on the wire within one 15 ms tick; steady / outage / receiver-restart / send-failure schedules)",
     text="TLC explores every interleaving of datagrams, flush ticks, regime / status changes, link resets and send "
          "failures on the bounded model (scaled thresholds, 3-4 datagrams, 2 links, no depth bound; 1e6-8e6 states) "
          "and checks queue bound, empty-after-tick, nothing vanishes, no duplicate on a link, per-link order; "
@@ -183,7 +189,9 @@ CLAIMED["C08"] = dict(
     engine="tlc+shellsim", design_ref="4.8",
     technique="TLA+ Lifecycle.tla monitor (own record of arrivals, teardowns, environment) and a design-level "
               "MC_Lifecycle model checked by TLC; ShellSim fault / adversarial-repair schedules validated by TLC "
-              "against the monitor",
+              "against the monitor"
+              "; the UNMODIFIED event loop (run_sender_with_config on a paused clock, real sockets) recorded end to end and "
+              "validated by TLC against the observer Trace_Loop.tla (socket re-created only after the configured silence or a send failure, retries >= 1 s / 5 s apart, registered again in time after repair / receiver restart / send failure)",
     text="TLC checks the life-cycle design (time-out, retry spacing, REG3 rejoin, keepalive liveness, fault budget) "
          "on the complete 2-link graph incl. bounded rejoin (holds for 6 s, refuted for 4 s); recorded runs of the "
          "real housekeeping / reconnect / uplink arms under loss, black-holes, lost replies, receiver amnesia, "
@@ -197,7 +205,9 @@ CLAIMED["C09"] = dict(
     engine="tlc+shellsim", design_ref="4.9",
     technique="TLA+ Relay.tla (one total Datagram action over class / length / link state with the relay, liveness "
               "and proof rules as guards) checked by TLC against the code's dispatch table; ShellSim runs with "
-              "arbitrary byte strings validated by TLC against Relay",
+              "arbitrary byte strings validated by TLC against Relay"
+              "; the UNMODIFIED event loop (run_sender_with_config on a paused clock, real sockets) recorded end to end and "
+              "validated by TLC against the observer Trace_Loop.tla (the client receives exactly the SRT-level datagrams of each instant)",
     text="Every datagram injected on any uplink in any link state (replies of the fake receiver and seeded byte "
          "strings of 0..1500 bytes over every SRTLA / SRT type code, ACK / NAK payloads aimed at live numbers, "
          "keepalive echoes with zero / future / stale / fresh timestamps, bursts of up to 200 datagrams through "
@@ -210,7 +220,9 @@ CLAIMED["C14"] = dict(
     engine="tlc+shellsim", design_ref="4.14",
     technique="TLA+ Keepalive.tla monitor (cadence per housekeeping pass, frame fields, independent "
               "outstanding-probe notion) and a design-level MC_Keepalive model checked by TLC; ShellSim runs "
-              "validated by TLC against the monitor",
+              "validated by TLC against the monitor"
+              "; the UNMODIFIED event loop (run_sender_with_config on a paused clock, real sockets) recorded end to end and "
+              "validated by TLC against the observer Trace_Loop.tla (keepalive format and the 2-period cadence of the real 1 s timer)",
     text="TLC checks cadence and sampling rules on the one-link model over pass spacings 1.0 / 1.5 s and every echo "
          "kind; in the recorded runs every keepalive captured on an uplink must be a 38-byte extended frame whose "
          "10-byte head carries the pass time and whose telemetry equals the link's window / in-flight / loss count "
